@@ -129,7 +129,7 @@ package l1infotreesync
 //@   loop 0 invariant p.halted == old(p.halted) && !p.halted && p.log == old(p.log) && p.log != nil && p.l1InfoTree == old(p.l1InfoTree) && p.l1InfoTree != nil && p.l1InfoTree.Tree != nil && len(p.l1InfoTree.zeroHashes) == 33 && p.rollupExitTree == old(p.rollupExitTree) && p.rollupExitTree != nil && p.rollupExitTree.Tree != nil && len(p.rollupExitTree.zeroHashes) == 33 && p.l1InfoTree.Tree != p.rollupExitTree.Tree
 //@   loop 0 invariant rhtOK(rhtHas(p.l1InfoTree.Tree), rhtL(p.l1InfoTree.Tree), rhtR(p.l1InfoTree.Tree)) && rhtOK(rhtHas(p.rollupExitTree.Tree), rhtL(p.rollupExitTree.Tree), rhtR(p.rollupExitTree.Tree))
 //@   loop 0 invariant stmtFail == old(stmtFail)
-//@   loop 0 invariant shouldRollback && tx != nil && lastTx == tx && tx != old(lastTx) && txState(tx) == 0
+//@   loop 0 invariant tx != nil && lastTx == tx && tx != old(lastTx) && txState(tx) == 0
 //@   loop 0 invariant l1InfoLeavesAdded == leafCalls - old(leafCalls) && 0 <= l1InfoLeavesAdded && l1InfoLeavesAdded <= rangeindex + 1 && (initialL1InfoIndex == (l1LastIndex + 1) % 4294967296 || initialL1InfoIndex == 0)
 //@   loop 0 invariant leafCalls != old(leafCalls) ==> lastLeafIdx == (initialL1InfoIndex + l1InfoLeavesAdded - 1) % 4294967296
 
